@@ -285,9 +285,12 @@ def check_C02(tier, seed):
         scripts.append(scen.progress_eager(r, len(scripts)))
     mcs = [("Progress.tla", "MC_Progress.cfg" if quick else "MC_Progress3.cfg"),
            # key updates "requested at any moment by either side": extension spec validated on the same runs
-           ("KeyUpdate.tla", "MC_KeyUpdate.cfg")]
+           ("KeyUpdate.tla", "MC_KeyUpdate.cfg"),
+           # which keys exist when (what the handshake's progress rests on): extension, same runs
+           ("HsKeys.tla", "MC_HsKeys.cfg")]
     return generic("C02", tier, seed, mcs, scripts,
-                   [("progress", "ProgressTrace.tla", "ProgressTrace.cfg"), ("keys", "KeyTrace.tla", "KeyTrace.cfg")],
+                   [("progress", "ProgressTrace.tla", "ProgressTrace.cfg"), ("keys", "KeyTrace.tla", "KeyTrace.cfg"),
+                    ("hs", "HsTrace.tla", "HsTrace.cfg")],
                    ["fair loss is made concrete as: faults only on a TLC-enumerated prefix of the datagrams of each direction, loss-free and constant delay afterwards",
                     "bounded liveness on the code: each run gets 400 s of virtual time (idle timeouts disabled); unbounded liveness is established on Progress.tla under weak fairness",
                     "applications are event driven (act only on reported events); stream limits of zero are raised by a scripted call after 300 ms"],
@@ -410,7 +413,8 @@ def replay_C11(scripts):
 
 def replay_C02(scripts):
     return generic("C02", "quick", 0, [], scripts, [("progress", "ProgressTrace.tla", "ProgressTrace.cfg"),
-                                                     ("keys", "KeyTrace.tla", "KeyTrace.cfg")], [], shards=1)
+                                                     ("keys", "KeyTrace.tla", "KeyTrace.cfg"),
+                                                     ("hs", "HsTrace.tla", "HsTrace.cfg")], [], shards=1)
 
 
 def replay_C03(scripts):
